@@ -194,6 +194,21 @@ def run(R):
             passed = [q.src(a) for a in mk[0].args]
             okf = all(n in passed for n in ("new", "spec", "create", "spec_set", "autospec", "new_callable", ko))
         R.check(okf, "C19.DROP-IN", "mock_.%s:forwards" % ours, R.site(f), "every parameter is handed to the patcher", "%s drops a parameter on the way to the patcher" % ours)
+    # the target is resolved the standard library's way, afresh on every activation: the getter that _get_target returns is
+    # handed to the patcher as it is (mock's own patch() does the same)
+    pf = mm.functions.get("patch")
+    tg = [n for n in q.scope_nodes(pf.node) if isinstance(n, ast.Assign) and isinstance(n.value, ast.Call) and q.call_name(n.value) == "_get_target"
+          and isinstance(n.targets[0], ast.Tuple) and len(n.targets[0].elts) == 2]
+    mkp = [c for c in q.calls(pf.node) if q.call_name(c) == "_make_patch_async"]
+    okg = len(tg) == 1 and len(mkp) == 1 and [q.src(a) for a in mkp[0].args[:2]] == [q.src(e) for e in tg[0].targets[0].elts] \
+        and [q.src(a) for a in tg[0].value.args] == [q.param_names(pf.node)[0]]
+    if okg:
+        names = set(q.src(e) for e in tg[0].targets[0].elts)
+        stores = [n for n in q.scope_nodes(pf.node) if isinstance(n, ast.Name) and isinstance(n.ctx, ast.Store) and n.id in names]
+        okg = len(stores) == 2
+    R.check(okg, "C19.DROP-IN", "mock_.patch:target", R.site(pf), "patch() hands the (getter, attribute) of _get_target(target) to the patcher unchanged",
+            "patch() does not hand the getter returned by _get_target(target) to the patcher as it is: the object owning the attribute may be resolved "
+            "differently (or only once) compared with unittest.mock.patch")
     mp = mm.functions.get("_make_patch_async")
     R.need(mp is not None, "anchor vanished: mock_._make_patch_async")
     init_n = len(sig(std["_patch.__init__"])[0]) - 1
@@ -224,6 +239,23 @@ def run(R):
         R.check(forbidden not in pa.methods, "C19.RESTORE", "%s.%s" % (pa.qualname, forbidden), R.site(pa.module, pa.node),
                 "_PatchAsync does not override %s: restoring the original is the standard library's code" % forbidden,
                 "_PatchAsync overrides %s: code that runs before the standard library restores the original can fail (or skip it) and leave the target patched" % forbidden)
+    # ... and none of the standard library's own bookkeeping (class attributes of _patch such as the list stopall() walks) is shadowed
+    std_names = set()
+    for n in tree.body:
+        if isinstance(n, ast.ClassDef) and n.name == "_patch":
+            for m in n.body:
+                if isinstance(m, (ast.FunctionDef, ast.AsyncFunctionDef)):
+                    std_names.add(m.name)
+                elif isinstance(m, ast.Assign):
+                    std_names |= set(t.id for t in m.targets if isinstance(t, ast.Name))
+                elif isinstance(m, ast.AnnAssign) and isinstance(m.target, ast.Name):
+                    std_names.add(m.target.id)
+    ours_names = set(pa.methods) | set(pa.class_assigns)
+    shadow = sorted((ours_names & std_names) - set(["__enter__", "copy", "__init__"]))
+    R.check(not shadow, "C19.RESTORE", pa.qualname + ":shadow", R.site(pa.module, pa.node),
+            "_PatchAsync redefines only __enter__ and copy of unittest.mock._patch",
+            "_PatchAsync redefines %s of unittest.mock._patch: the standard machinery that starts, stops and restores patches (stop(), stopall()) no longer works on "
+            "the same state" % shadow)
     # decorator use goes through the inherited machinery too
     for forbidden in ("__call__", "decorate_callable", "decorate_class", "decoration_helper"):
         R.check(forbidden not in pa.methods, "C19.RESTORE", "%s.%s" % (pa.qualname, forbidden), R.site(pa.module, pa.node),
